@@ -10,6 +10,7 @@ import (
 	"strconv"
 	"strings"
 	"time"
+	"unicode/utf8"
 
 	yaml "gopkg.in/yaml.v3"
 
@@ -736,8 +737,9 @@ func titleFunc(v any) any {
 	if s, ok := v.(string); ok {
 		words := strings.Fields(s)
 		for i, word := range words {
-			if len(word) > 0 {
-				words[i] = strings.ToUpper(word[:1]) + strings.ToLower(word[1:])
+			// the first character, not the first byte: "élan" is "Élan"
+			if _, size := utf8.DecodeRuneInString(word); size > 0 {
+				words[i] = strings.ToUpper(word[:size]) + strings.ToLower(word[size:])
 			}
 		}
 		return strings.Join(words, " ")
